@@ -56,6 +56,11 @@ pub enum DiskOp {
     Append,
     /// extractor: create_dir_all
     Mkdir,
+    /// tokio::fs::File (create / write / set_len) or a torn whole-file write: the file now holds
+    /// `data`; not a piece store by itself
+    FileState,
+    /// tokio::fs::remove_file / rename source
+    Remove,
 }
 
 #[derive(Clone, Debug, Hash, PartialEq, Eq)]
@@ -720,6 +725,8 @@ pub struct Disk {
     pub full_from: Option<u64>,
     pub writes: u64,
     pub reads: u64,
+    /// decides what a failed whole-file write leaves behind: nothing, or a torn prefix
+    pub torn: Rng64,
 }
 
 impl Default for Disk {
@@ -737,6 +744,7 @@ impl Default for Disk {
             full_from: None,
             writes: 0,
             reads: 0,
+            torn: Rng64::new(0),
         }
     }
 }
@@ -780,10 +788,26 @@ impl Disk {
         let ok = !full && !self.fail_writes.contains(&ord) && self.parent_exists(&abs) && !self.dirs.contains(&abs);
         if ok {
             self.files.insert(abs.clone(), data.to_vec());
-        } else if full {
-            bump("disk_full_write_error");
-        } else if self.fail_writes.contains(&ord) {
-            bump("disk_write_error");
+        } else {
+            if full {
+                bump("disk_full_write_error");
+            } else if self.fail_writes.contains(&ord) {
+                bump("disk_write_error");
+            }
+            // the write is not atomic: the file has been created/truncated, and some prefix of the
+            // data may have reached it before the error
+            // (only a file that did not exist before is torn: destroying an existing copy through
+            // a failed rewrite is a storage fault none of the properties quantifies over, see
+            // DESIGN 12.5)
+            if (full || self.fail_writes.contains(&ord)) && self.parent_exists(&abs) && !self.dirs.contains(&abs) && !self.files.contains_key(&abs) && self.torn.chance(1, 2) {
+                let mut left_behind = self.torn.below(data.len() as u64 + 1) as usize;
+                if left_behind == data.len() && left_behind > 0 {
+                    left_behind -= 1;
+                }
+                self.files.insert(abs.clone(), data[..left_behind].to_vec());
+                bump("torn_write");
+                log(Ev::Disk { op: DiskOp::FileState, raw: raw.to_string(), path: abs.clone(), ok: true, data: data[..left_behind].to_vec(), len: left_behind });
+            }
         }
         log(Ev::Disk { op: DiskOp::Write, raw: raw.to_string(), path: abs, ok, data: data.to_vec(), len: data.len() });
         if ok {
@@ -879,6 +903,87 @@ impl Disk {
         Ok(n)
     }
 
+    // ---- tokio::fs::File and friends (asynchronous file API of the client) ----
+
+    fn file_state(&self, raw: &str, abs: &str) {
+        let data = self.files.get(abs).cloned().unwrap_or_default();
+        let len = data.len();
+        log(Ev::Disk { op: DiskOp::FileState, raw: raw.to_string(), path: abs.to_string(), ok: true, data, len });
+    }
+
+    /// `File::create`: counts as a write for the injected disk faults.
+    pub fn afile_create(&mut self, raw: &str) -> io::Result<String> {
+        let abs = self.resolve(raw);
+        let ord = self.writes;
+        self.writes += 1;
+        let full = self.full_from.map(|f| ord >= f).unwrap_or(false);
+        let injected = full || self.fail_writes.contains(&ord);
+        if injected {
+            bump(if full { "disk_full_write_error" } else { "disk_write_error" });
+        }
+        let ok = !injected && self.parent_exists(&abs) && !self.dirs.contains(&abs) && abs != "/";
+        if ok {
+            self.files.insert(abs.clone(), Vec::new());
+            self.file_state(raw, &abs);
+            Ok(abs)
+        } else {
+            log(Ev::Disk { op: DiskOp::Write, raw: raw.to_string(), path: abs, ok: false, data: Vec::new(), len: 0 });
+            Err(io::Error::new(io::ErrorKind::Other, "sim disk create error"))
+        }
+    }
+
+    /// One `write` call on a `File`: at most `max` bytes are taken (a short write is legal).
+    pub fn afile_write(&mut self, abs: &str, pos: u64, data: &[u8], max: usize) -> io::Result<usize> {
+        let n = data.len().min(max);
+        let f = self.files.get_mut(abs).ok_or_else(|| io::Error::new(io::ErrorKind::NotFound, "sim: gone"))?;
+        let pos = pos as usize;
+        if f.len() < pos + n {
+            f.resize(pos + n, 0);
+        }
+        f[pos..pos + n].copy_from_slice(&data[..n]);
+        if n < data.len() {
+            bump("afile_short_write");
+        }
+        self.file_state("", abs);
+        Ok(n)
+    }
+
+    pub fn afile_set_len(&mut self, abs: &str, len: u64) -> io::Result<()> {
+        let f = self.files.get_mut(abs).ok_or_else(|| io::Error::new(io::ErrorKind::NotFound, "sim: gone"))?;
+        f.resize(len as usize, 0);
+        self.file_state("", abs);
+        Ok(())
+    }
+
+    pub fn remove_file(&mut self, raw: &str) -> io::Result<()> {
+        let abs = self.resolve(raw);
+        let ok = self.files.remove(&abs).is_some();
+        log(Ev::Disk { op: DiskOp::Remove, raw: raw.to_string(), path: abs, ok, data: Vec::new(), len: 0 });
+        if ok {
+            Ok(())
+        } else {
+            Err(io::Error::new(io::ErrorKind::NotFound, "sim: not found"))
+        }
+    }
+
+    pub fn rename(&mut self, from: &str, to: &str) -> io::Result<()> {
+        let (a, b) = (self.resolve(from), self.resolve(to));
+        if !self.files.contains_key(&a) || !self.parent_exists(&b) || self.dirs.contains(&b) {
+            log(Ev::Disk { op: DiskOp::Remove, raw: from.to_string(), path: a, ok: false, data: Vec::new(), len: 0 });
+            return Err(io::Error::new(io::ErrorKind::NotFound, "sim: cannot rename"));
+        }
+        let data = self.files.remove(&a).unwrap();
+        log(Ev::Disk { op: DiskOp::Remove, raw: from.to_string(), path: a, ok: true, data: Vec::new(), len: 0 });
+        self.files.insert(b.clone(), data);
+        self.file_state(to, &b);
+        Ok(())
+    }
+
+    pub fn exists(&self, raw: &str) -> bool {
+        let abs = self.resolve(raw);
+        self.files.contains_key(&abs) || self.dirs.contains(&abs)
+    }
+
     pub fn len_of(&self, abs: &str) -> Option<u64> {
         self.files.get(abs).map(|f| f.len() as u64)
     }
@@ -951,7 +1056,7 @@ impl World {
         World {
             seed,
             net: Net { pipe_cap: 1 << 20, ..Default::default() },
-            disk: Disk::default(),
+            disk: Disk { torn: Rng64::sub(seed, "disk-torn"), ..Disk::default() },
             tracker: Tracker::default(),
             rdest_rng: Rng64::sub(seed, "rdest-thread-rng"),
             fs_rng: Rng64::sub(seed, "fs-yield"),
